@@ -286,6 +286,11 @@ func (runInfo *runInfoStruct) invokeDerefExpr(expr *ast.DerefExpr) {
 		runInfo.rv = nilValue
 		return
 	}
+	if isTypeValue(runInfo.rv) {
+		runInfo.err = newStringError(expr.Expr, "cannot deference a type")
+		runInfo.rv = nilValue
+		return
+	}
 	runInfo.rv = runInfo.rv.Elem()
 }
 
